@@ -220,6 +220,7 @@ class Facts:
                         refnames.canonical_equalities(o)
                         refnames.canonical_compound(o)
                         refnames.canonical_emplace(o)
+                        refnames.canonical_if(o)
                     self.fns.append(o)
                 elif e == "rec":
                     # keep the definition with most fields (there is only one per q unless templates/specs)
